@@ -1,0 +1,171 @@
+//! Verification hook. Only compiled with `--cfg triomphe_verif`.
+//!
+//! Stands in for `core::sync::atomic` inside this crate: everything is re-exported
+//! unchanged, except that `AtomicUsize` and `fence` are thin wrappers which report each
+//! operation (cell address, kind, operand, ordering, observed value) to an installed
+//! tracer before and after performing the real operation. With no tracer installed the
+//! wrappers are the real operations. `AtomicUsize` keeps the size and alignment of the
+//! real type.
+
+pub use core::sync::atomic::*;
+
+use core::sync::atomic as real;
+
+/// Kind of an operation on a reference count.
+#[derive(Clone, Copy, Debug, PartialEq, Eq)]
+pub enum Op {
+    Load,
+    Store,
+    FetchAdd,
+    FetchSub,
+    Swap,
+    CompareExchange,
+    Fence,
+}
+
+/// One operation, as reported to the tracer.
+#[derive(Clone, Copy, Debug)]
+pub struct Event {
+    /// Address of the cell operated on (null for fences).
+    pub cell: *const real::AtomicUsize,
+    pub op: Op,
+    pub operand: usize,
+    pub order: Ordering,
+}
+
+/// Callbacks invoked around every operation.
+pub struct Tracer {
+    pub pre: fn(&Event),
+    pub post: fn(&Event, usize),
+}
+
+static TRACER: real::AtomicPtr<Tracer> = real::AtomicPtr::new(core::ptr::null_mut());
+
+/// Install (`Some`) or remove (`None`) the process-wide tracer.
+pub fn set_tracer(t: Option<&'static Tracer>) {
+    let p = match t {
+        Some(t) => t as *const Tracer as *mut Tracer,
+        None => core::ptr::null_mut(),
+    };
+    TRACER.store(p, Ordering::SeqCst);
+}
+
+#[inline]
+fn traced<F: FnOnce() -> usize>(ev: Event, f: F) -> usize {
+    let t = TRACER.load(Ordering::Acquire);
+    if t.is_null() {
+        return f();
+    }
+    let t = unsafe { &*t };
+    (t.pre)(&ev);
+    let v = f();
+    (t.post)(&ev, v);
+    v
+}
+
+#[repr(transparent)]
+pub struct AtomicUsize(real::AtomicUsize);
+
+impl AtomicUsize {
+    #[inline]
+    pub const fn new(v: usize) -> Self {
+        AtomicUsize(real::AtomicUsize::new(v))
+    }
+
+    /// The real cell (for the harness: presetting a count without knowing the layout).
+    #[inline]
+    pub fn real(&self) -> &real::AtomicUsize {
+        &self.0
+    }
+
+    #[inline]
+    fn ev(&self, op: Op, operand: usize, order: Ordering) -> Event {
+        Event {
+            cell: &self.0,
+            op,
+            operand,
+            order,
+        }
+    }
+
+    #[inline]
+    pub fn load(&self, order: Ordering) -> usize {
+        traced(self.ev(Op::Load, 0, order), || self.0.load(order))
+    }
+
+    #[inline]
+    pub fn store(&self, v: usize, order: Ordering) {
+        traced(self.ev(Op::Store, v, order), || {
+            self.0.store(v, order);
+            v
+        });
+    }
+
+    #[inline]
+    pub fn fetch_add(&self, v: usize, order: Ordering) -> usize {
+        traced(self.ev(Op::FetchAdd, v, order), || self.0.fetch_add(v, order))
+    }
+
+    #[inline]
+    pub fn fetch_sub(&self, v: usize, order: Ordering) -> usize {
+        traced(self.ev(Op::FetchSub, v, order), || self.0.fetch_sub(v, order))
+    }
+
+    #[inline]
+    pub fn swap(&self, v: usize, order: Ordering) -> usize {
+        traced(self.ev(Op::Swap, v, order), || self.0.swap(v, order))
+    }
+
+    #[inline]
+    pub fn compare_exchange(
+        &self,
+        current: usize,
+        new: usize,
+        success: Ordering,
+        failure: Ordering,
+    ) -> Result<usize, usize> {
+        let mut r = Ok(0);
+        traced(self.ev(Op::CompareExchange, new, success), || {
+            r = self.0.compare_exchange(current, new, success, failure);
+            match r {
+                Ok(v) | Err(v) => v,
+            }
+        });
+        r
+    }
+
+    #[inline]
+    pub fn compare_exchange_weak(
+        &self,
+        current: usize,
+        new: usize,
+        success: Ordering,
+        failure: Ordering,
+    ) -> Result<usize, usize> {
+        self.compare_exchange(current, new, success, failure)
+    }
+
+    #[inline]
+    pub fn get_mut(&mut self) -> &mut usize {
+        self.0.get_mut()
+    }
+
+    #[inline]
+    pub fn into_inner(self) -> usize {
+        self.0.into_inner()
+    }
+}
+
+#[inline]
+pub fn fence(order: Ordering) {
+    let ev = Event {
+        cell: core::ptr::null(),
+        op: Op::Fence,
+        operand: 0,
+        order,
+    };
+    traced(ev, || {
+        real::fence(order);
+        0
+    });
+}
